@@ -23,7 +23,11 @@ def parse(log):
     for num, name, status, desc, loc in checks:
         desc = desc.strip('"')
         if ".cover." in name:
-            r["covers"][desc] = status
+            if desc.startswith("CEX:"):
+                # negation cover of an assertion (counterexample carrier), not a reachability witness
+                r.setdefault("cex_covers", {})[desc[4:]] = status
+            else:
+                r["covers"][desc] = status
             continue
         r["n_checks"] += 1
         if status in ("FAILURE",):
